@@ -43,13 +43,19 @@ func (rs *peerSwitchSender) _switch(
 	oReqs map[address.Address]Request,
 ) error {
 	if r.Command == CommandWrite {
-		for nodeKey, frame := range r.Frame.SplitByLeaseholder() {
-			addr, ok := rs.addresses[nodeKey]
-			if !ok {
+		frames := r.Frame.SplitByLeaseholder()
+		for nodeKey := range frames {
+			if _, ok := rs.addresses[nodeKey]; !ok {
 				rs.logger.DPanic("missing address for node", zap.Uint32("node", uint32(nodeKey)))
 			}
-			r.Frame = frame
-			oReqs[addr] = r
+		}
+		// Every peer gets the request, with an empty frame when the frame carries none of
+		// its channels: the synchronizer waits for an acknowledgement from every node,
+		// so leaving a peer out blocks a synchronous write forever.
+		for nodeKey, addr := range rs.addresses {
+			pr := r
+			pr.Frame = frames[nodeKey]
+			oReqs[addr] = pr
 		}
 	} else {
 		for _, addr := range rs.addresses {
